@@ -254,8 +254,12 @@ def decide(prop_id, tier, seed, registry=None, keep_out=False):
         "coverage": cov, "assumptions": P.get("assumptions", []), "wall_s": round(wall, 2),
         "violations": len(unlisted),
     }
-    os.makedirs(os.path.join(HERE, "evidence"), exist_ok=True)
-    with open(os.path.join(HERE, "evidence", prop_id + ".json"), "w") as f:
+    # runs against a scratch copy of the repository (mutant validation) must not overwrite evidence
+    evdir = os.path.join(HERE, "evidence")
+    if os.environ.get("VERIF_REPO", "/repo") != "/repo" or os.environ.get("VERIF_ONLY_CONFIG") or os.environ.get("VERIF_EXTRA_ARGS"):
+        evdir = os.path.join(HERE, "_out", "evidence_dev")
+    os.makedirs(evdir, exist_ok=True)
+    with open(os.path.join(evdir, prop_id + ".json"), "w") as f:
         json.dump(ev, f, indent=1, sort_keys=True)
         f.write("\n")
 
